@@ -108,6 +108,25 @@ pub fn run_c03(ctx: &RunCtx) {
         let pr = print_program(src, &prog, style);
         let mut rep = CaseReport::default();
         let judged = check_c03(&pr.text, &mut rep.failures);
+        // a program that contains a construct the analyser has no translation for gets at least
+        // one semantic diagnostic
+        if judged && rep.failures.is_empty() {
+            let r = crate::model::r_program(&prog);
+            const MARKS: &[&str] = &[
+                "(array-decl", "(old-decl", "(extern ", "(cal)", "(defcalgrammar", "(bin < ", "(bin <= ", "(bin > ", "(bin >= ", "(bin && ", "(bin || ", "(un ! ", "(un ~ ", "(array-lit",
+                "(expr-stmt (block", "(bin += ", "(bin -= ", "(bin *= ", "(bin /= ", "(bin %= ", "(bin &= ", "(bin |= ", "(bin ^= ", "(bin <<= ", "(bin >>= ", "(bin **= ", "(io-array-decl",
+            ];
+            if let Some(m) = MARKS.iter().find(|m| r.contains(**m)) {
+                rep.class("has-unsupported-construct");
+                if let Ok(res) = analyze(&pr.text) {
+                    let mut v = vec![];
+                    all_semantic_errors(res.semantic_errors(), &mut v);
+                    if v.is_empty() {
+                        rep.fail("C03:unsupported-construct-accepted-silently", json!({"input": {"source": pr.text}, "expected": format!("at least one semantic diagnostic (model contains {m})"), "actual": "none"}));
+                    }
+                }
+            }
+        }
         rep.discarded = !judged;
         rep.class("wide-program");
         rep.nontrivial = Some(fnv64(pr.text.as_bytes()));
@@ -276,6 +295,29 @@ fn extreme_templates() -> Vec<String> {
         v.push(format!("{}nope;{}", "while (false) { ".repeat(depth), " }".repeat(depth)));
         v.push(format!("{}nope;{}", "{ ".repeat(depth), " }".repeat(depth)));
         v.push(format!("(nope + {}nope{});", "(1 * ".repeat(depth), ")".repeat(depth)));
+    }
+    // an include (library, missing file, malformed path) as the brace-less body of every control
+    // flow statement, at top level and one level down
+    for path in ["stdgates.inc", "missing_file.inc", "a\\qb.inc"] {
+        let i = format!("include \"{path}\";");
+        for t in [
+            format!("bool c; if (c) {i}"),
+            format!("bool c; if (c) {i} else {i}"),
+            format!("bool c; int x; if (c) x = 1; else {i}"),
+            format!("bool c; if (c) {{ }} else if (!c) {i}"),
+            format!("bool c; while (c) {i}"),
+            format!("for int k in [0:1] {i}"),
+            format!("for int k in {{1, 2}} {i}"),
+            format!("bool c; if (c) {{ if (c) {i} }}"),
+            format!("bool c; while (c) {{ while (c) {i} }}"),
+            format!("def f() {{ if (true) {i} }}"),
+            format!("gate g q {{ {i} }}"),
+            format!("def f() {{ {i} }}"),
+            format!("switch (1) {{ case 1 {{ {i} }} default {{ {i} }} }}"),
+            format!("bool c; if (c) {i}\nqubit q; h q;"),
+        ] {
+            v.push(t);
+        }
     }
     for a in inc {
         v.push(format!("{a}\nqubit q;"));
